@@ -773,7 +773,11 @@ class FuncAnalysis:
                 return self.index(x, fake, "isel")
             if isinstance(e.slice, (ast.List, ast.ListComp)):
                 return self.newvars(x)    # ds[[names]] : subset of variables
-            return self.view(x)
+            r = self.view(x)
+            if isinstance(e.slice, ast.Name) and k.kind in ("TOP", "SC") and not k.all_pairs():
+                # x[name] with a name that is not a constant (a loop over dimension names): may be any coordinate / variable OBJECT of x
+                r = r.clone(V=r.V | x.vc_all() | x.V, Bc=r.Bc | x.Bc)
+            return r
         if x.kind == "ND":
             return AV("ND", B=x.B)
         if x.kind == "SC":
